@@ -163,6 +163,9 @@ FNS = {
     'Spectrum': lambda L, wave, value, **k: L.radiometry.Spectrum(wave, value, **k),
     'Blackbody': lambda L, wave, temp, **k: L.radiometry.Blackbody(wave, temp, **k),
     'Material': lambda L, **k: L.radiometry.Material(**k),
+    # the product a Material hands out: contam * transmission (or emission).  The two operands are named in the event so that the
+    # arithmetic oracles can judge it like any other product
+    'material.product': lambda L, contam, spec, mat, which: getattr(mat, which),
     'Spectrum.copy': _method('copy'),
     'Spectrum.add': _method('add'),
     'Spectrum.subtract': _method('subtract'),
